@@ -36,6 +36,15 @@ SCRIPT = textwrap.dedent(
     def tick():
         CLOCK[0] += dt.timedelta(seconds=1); return CLOCK[0]
 
+    class FT(tuple):
+        """what calls return, literals hold and stores deliver: a FALSY tuple (equal to the plain tuple with the same items) - results are the user's
+        values, the library must never consult their truth value"""
+        def __bool__(self): return False
+
+    class FalsyError(ValueError):
+        """what failing calls raise: a FALSY exception instance (like an aggregate error with zero item failures)"""
+        def __len__(self): return 0
+
     class Rec:
         """event log shared by stores and call functions"""
         def __init__(self): self.ev = []; self.lock = threading.Lock()
@@ -48,12 +57,13 @@ SCRIPT = textwrap.dedent(
         def read(self):
             self.rec.add("read", self.name)
             if not self.has: raise IOError("empty store " + self.name)
-            return ("N", self.name, self.val)
+            return FT(("N", self.name, self.val))
         def write(self, v):
             self.rec.add("write-begin", self.name); self.val, self.has, self.mtime = v, True, tick(); self.rec.add("write", self.name)
         def get_modified_time(self):
             self.rec.add("mtime", self.name); return self.mtime
         def __repr__(self): return f"MemStore({self.name})"
+        def __len__(self): return 0      # a store is a user object and may be falsy: the library must test 'is None', never truth
 
     class Obs(uberjob.progress.ProgressObserver if hasattr(uberjob, "progress") else object):
         def __init__(self): self.ev = []; self.lock = threading.Lock()
@@ -120,7 +130,7 @@ SCRIPT = textwrap.dedent(
                 kw = {k[3:]: objs[j] for k, j in nd["args"] if k.startswith("kw:")}
                 with plan.scope(*nd["scope"]):
                     if nd["kind"] == "lit":
-                        o = plan.lit(("L", i))
+                        o = plan.lit(FT(("L", i)))
                     elif nd["kind"] == "source" and with_registry:
                         st = stores[i] = MemStore(f"src{i}", rec); o = reg.source(plan, st)
                     else:
@@ -128,11 +138,11 @@ SCRIPT = textwrap.dedent(
                             def f(*a, **k):
                                 rec.add("start", i, a, tuple(k.items()))
                                 self.attempts[i] = self.attempts.get(i, 0) + 1
-                                if self.fail == i: rec.add("raise", i); raise ValueError(f"boom{i} attempt {self.attempts[i]}")
+                                if self.fail == i: rec.add("raise", i); raise FalsyError(f"boom{i} attempt {self.attempts[i]}")
                                 if self.flaky.get(i, 0) > 0:
-                                    self.flaky[i] -= 1; rec.add("raise", i); raise ValueError(f"flaky{i} attempt {self.attempts[i]}")
+                                    self.flaky[i] -= 1; rec.add("raise", i); raise FalsyError(f"flaky{i} attempt {self.attempts[i]}")
                                 time.sleep(0.0005 * (i % 3))
-                                rec.add("end", i); return ("V", i, a, tuple(k.items()))
+                                rec.add("end", i); return FT(("V", i, a, tuple(k.items())))
                             f.__name__ = f"fn{i}"; f.__qualname__ = f"fn{i}"; return f
                         self.fns[i] = mk(i)
                         o = plan.call(self.fns[i], *pos, **kw)
